@@ -331,18 +331,18 @@ PROPS = {
                 '(ids and values with spaces, quotes, &, =, %, +, unicode, YAML-looking text): facts add/get/rem/search/take/replace/query, rules add/list/rem/enable/disable/enabled, events/ingest, parents get/set, '
                 'admin size/stats/create/clear/delete, util/js; each rendered in an encoding drawn per operation (query string, form, JSON body, YAML body, query + JSON body, /api/json and /api/yaml envelopes; typed parameters as JSON or YAML text; '
                 'path as is / without /api / behind /v1.0 / behind /0.9 without /api; booleans as true/TRUE/True), 8% batches of 1-3 requests, 22% malformed (missing required parameter, ill-typed value, empty body, non-string uri, unknown uri, '
-                'empty typed value, repeated parameter, junk typed value, envelope without uri / with GET / empty, bad body syntax, batch element with non-string uri); 3 cases in 5 stay outside the input classes of the known findings (profile clean); '
+                'empty typed value, repeated parameter, junk typed value, envelope without uri / with GET / empty, bad body syntax, batch element with non-string uri); '
                 '6 DWIMURI probe strings per case; non-trivial = at least 6 distinct features; distinct by hash of inputs',
-        'refuted': ['composite_swallows_errors_counterexample (D62)', 'unchecked_getter_counterexample (D63)'],
+        'refuted': [],
         'level_text': 'Coq theorems over the executable model of service/httpd.go and service/service.go: dwim_idempotent and dwim_prefix_variants (DWIMURI character by character, all strings); decode_render / decode_encoding_independent '
                       '(every supported rendering of a well-typed logical request - seven encodings x four prefix variants x JSON/YAML parameter text - decodes to the same uri and the getters see the same parameters); '
                       'service_performs_direct_call and batch_performs_direct_calls (whatever the encoding the service plans exactly the System call of the logical request, same method and arguments); by reflection over the dispatch table regenerated from the Go source: '
-                      'model_tables_match_source, getter_types_consistent, required_are_checked, missing_or_illtyped_is_error/_is_400 (every required parameter of every /api/loc/* case, one exception), unknown_uri_is_error/_is_400; '
+                      'model_tables_match_source, getter_types_consistent, required_are_checked, optional_ids_are_checked, missing_or_illtyped_is_error/_is_400 (every required parameter of every /api/loc/* case, no exception), composite_reports_inner_errors and replace_add_not_rejected (take / replace return the errors of their inner requests and replace rejects before it takes anything), unknown_uri_is_error/_is_400; '
                       'serve_never_panics (ServeHTTP never panics up to the System calls), empty_inputs_are_400. Tie to the code: twin-world differential over generated histories (status class and canonical JSON against the direct System call) and op-by-op replay of the abstract requests through the extracted model.',
         'level_note': 'partial: the lexical layers (net/url escaping, encoding/json and yaml.v2 lexers) are not modelled - abstract requests carry the texts as lexed by the real lexers (the harness runs url.ParseQuery, json.Unmarshal, service.UnmarshalYAML, strconv.ParseInt on the real bytes), '
                       'the first-byte / newline sniffing IS modelled; lexical round trips are the explicit hypothesis lexical_ok of the rendering theorems, exercised by the harness with url.Values.Encode, json.Marshal and yaml.Marshal. '
                       'Paths are plain (no %-escapes). The System behind the service is not modelled here (C01-C10): the model predicts the status class from the plan and the direct call\'s failure flag. '
-                      'Not covered: /api/loc/events/retry, /api/loc/admin/updatedmem, the encoding= and libraries= parameters of util/js, the /api/sys/* and health cases. Known findings D62-D65 (service layer defects) are decidable input classes; D24, D25, D61 (panics instead of 400) were found by this check and are repaired in /repo.',
+                      'Not covered: /api/loc/events/retry, /api/loc/admin/updatedmem, the encoding= and libraries= parameters of util/js, the /api/sys/* and health cases. D24, D25, D61 (panics instead of 400), D62 (take / replace swallowed the errors of their inner requests), D63 (unchecked getter errors), D64 and D65 (answers assembled with Sprintf that were not JSON) were found by this check and are repaired in /repo; the check has no open finding.',
         'technique': 'Coq proofs over an executable model of request decoding and dispatch + reflection over a source-derived dispatch table + twin-world differential testing through httptest',
         'assumptions': ['lexical_ok: json.Marshal output starts with "{", yaml.Marshal output contains a newline, url.Values.Encode output is non-empty for a non-empty form and contains neither a leading "{" nor a newline; texts lex back to the values they were printed from',
                         'paths carry no %-escapes and no "?"', 'JSON numbers are integers', 'sequential requests'],
